@@ -72,7 +72,13 @@ def make_actor(state: ActorState, actor_name: str, *, with_msg_dep=False, deps=N
                 raise EXC[beh.get("exc", "ValueError")](f"boom-{jid}-{n}")
             if do == "hang":
                 how = "hang"
-                await asyncio.sleep(10**7)
+                try:
+                    await asyncio.sleep(10**7)
+                except asyncio.CancelledError:
+                    if beh.get("cleanup_us"):
+                        # slow to react to its cancellation (clean-up work): still "in progress" until it is over
+                        await asyncio.sleep(beh["cleanup_us"] / 1e6)
+                    raise
             if do == "eager" and msg is not None:
                 e = beh["eager"]
                 for pre in e.get("pre", []):
